@@ -205,6 +205,21 @@ func c10Doc(c *explore.Ctx, s *explore.SubStats, d kitDoc) {
 	s.Sample(func() any { return d })
 }
 
+// c10ManyDocs: near misses of names that have nine equally close candidates each.
+var c10ManyDocs = []string{
+	`{ ...F } fragment F on Taa { x }`,
+	`{ ... on Taa { x } }`,
+	`query ($v: Taa) { q(xab: $v) }`,
+	`{ faa { x } }`,
+	`{ q(xaa: 1) }`,
+	`{ e(v: VAA) }`,
+	`{ i(v: {iaa: 1}) }`,
+	`{ q @daa }`,
+	`{ ...F faa { x } q(xaa: 1, xa: 2) e(v: VAA) i(v: {iaa: 1, ia: 2}) q2: q @daa } fragment F on Taa { x }`,
+	`{ ...G } fragment G on Ta { x }`,
+	`{ ... on Tabb { x } fabb { x } }`,
+}
+
 // c10Template: the rule (or message template) of the first error that differs.
 func c10Template(a, b string) string {
 	al, bl := strings.Split(a, "\n"), strings.Split(b, "\n")
@@ -444,6 +459,75 @@ func runC10(c *explore.Ctx) {
 				s.States++
 				s.Transitions++
 				c10Twin(c, s, c10TwinInput{Doc: i, First: first})
+			}
+		}
+		s.WallS = time.Since(t0).Seconds()
+	}
+	// more candidates than a suggestion list shows: which ones are shown must not depend on map order
+	s = c.Sub("many-candidates", fmt.Sprintf("a schema with 9 type names, 9 field names, 9 argument names, 9 enum values, 9 input fields and 9 directive names one edit apart × %d documents that miss each of them by one letter × every map-order policy", len(c10ManyDocs)),
+		"identical complete error lists (which of the equally close candidates a 'Did you mean' list shows included) under every policy, and on re-validation", "documents with an error")
+	if s != nil {
+		t0 := time.Now()
+		var sb strings.Builder
+		sb.WriteString("type Query { q(")
+		for _, x := range "bcdefghij" {
+			fmt.Fprintf(&sb, "xa%c: Int ", x)
+		}
+		sb.WriteString("): Int e(v: Ea): Int i(v: Ia): Int ")
+		for _, x := range "bcdefghij" {
+			fmt.Fprintf(&sb, "fa%c: Ta%c ", x, x)
+		}
+		sb.WriteString("}\nenum Ea {")
+		for _, x := range "bcdefghij" {
+			fmt.Fprintf(&sb, " VA%c", x-32)
+		}
+		sb.WriteString(" }\ninput Ia {")
+		for _, x := range "bcdefghij" {
+			fmt.Fprintf(&sb, " ia%c: Int", x)
+		}
+		sb.WriteString(" }\n")
+		for _, x := range "bcdefghij" {
+			fmt.Fprintf(&sb, "type Ta%c { x: Int }\ndirective @da%c on FIELD\n", x, x)
+		}
+		schema, err := gqlparser.LoadSchema(&ast.Source{Name: "many.graphql", Input: sb.String()})
+		if err != nil {
+			panic("C10 many-candidates schema: " + err.Error())
+		}
+		for i, d := range c10ManyDocs {
+			if i%c.NShards != c.Shard {
+				continue
+			}
+			s.States++
+			s.Executions++
+			run := func() string {
+				doc, perr := parser.ParseQuery(&ast.Source{Name: "q.graphql", Input: d})
+				if perr != nil {
+					return "parse: " + perr.Error()
+				}
+				var first, again string
+				r := guarded(c02DocBudget, 5000, func() {
+					first = errSig(validator.Validate(schema, doc))
+					again = errSig(validator.Validate(schema, doc))
+				})
+				if r.Panicked {
+					return "panic: " + r.PanicVal
+				}
+				if again != first {
+					return first + "\n--- second validation of the same tree ---\n" + again
+				}
+				return first
+			}
+			base, pol, diff, runs := orderPolicies(run)
+			s.Transitions += int64(runs)
+			s.Validated++
+			if base != "" {
+				s.Nontrivial++
+			}
+			s.Outcome(fmt.Sprintf("suggestions=%v", strings.Contains(base, "Did you mean")))
+			if pol != "" {
+				c.Report(s, explore.Violation{Key: "nondet/map-order many-candidates " + c10Template(base, diff), Input: explore.J(map[string]any{"doc": d}), Rendered: d, Detail: "the error list depends on map iteration order (" + pol + ")", Expected: base, Observed: diff})
+			} else if strings.Contains(base, "--- second validation") {
+				c.Report(s, explore.Violation{Key: "nondet/revalidation many-candidates", Input: explore.J(map[string]any{"doc": d}), Rendered: d, Detail: "validating the same parsed document a second time gives a different error list", Observed: base})
 			}
 		}
 		s.WallS = time.Since(t0).Seconds()
